@@ -340,6 +340,68 @@ async fn cache_histories(rep: &mut Report, w: &World, rng: &mut Rng, n_hist: usi
             rep.sample(json!({"kind": "cache history", "steps": history}));
         }
     }
+    // concurrent fills: overlapping lookups / requests for the SAME fresh name with different ports
+    // (all miss the cache before any of them stores its answer); each must get its own port
+    for h in 0..n_hist.max(20) {
+        let name = format!("conc{h}.fill.example.test");
+        let ports: Vec<u16> = (0..rng.usize(2, 4)).map(|k| 1000 + 7 * h as u16 + 97 * k as u16).collect();
+        rep.add("concurrent_cache_fills", 1);
+        rep.case(Some(hash_str(&format!("concfill:{name}:{:?}", ports))));
+        if h % 2 == 0 {
+            let futs: Vec<_> = ports.iter().map(|p| anytls_rs::util::resolve_host_with_cache(&name, *p)).collect();
+            let mut set = Vec::new();
+            for f in futs {
+                set.push(f);
+            }
+            // poll them together on this task
+            let results = match set.len() {
+                2 => {
+                    let mut it = set.into_iter();
+                    let (a, b) = tokio::join!(it.next().unwrap(), it.next().unwrap());
+                    vec![a, b]
+                }
+                3 => {
+                    let mut it = set.into_iter();
+                    let (a, b, c) = tokio::join!(it.next().unwrap(), it.next().unwrap(), it.next().unwrap());
+                    vec![a, b, c]
+                }
+                _ => {
+                    let mut it = set.into_iter();
+                    let (a, b, c, d) = tokio::join!(it.next().unwrap(), it.next().unwrap(), it.next().unwrap(), it.next().unwrap());
+                    vec![a, b, c, d]
+                }
+            };
+            for (p, r) in ports.iter().zip(results.into_iter()) {
+                match r {
+                    Ok(addr) if addr.port() == *p && addr.ip() == IpAddr::V4(netkit::name_to_v4(&name)) => {}
+                    Ok(addr) => {
+                        rep.violate("destination", "concurrent_cache_fill", if addr.port() != *p { "port_of_another_request" } else { "wrong_address_from_cache" }, format!("{} overlapping lookups of the uncached name {name} with ports {:?}: the lookup for port {p} returned {addr}", ports.len(), ports), json!({"kind": "c07-concurrent-fill", "name": name, "ports": ports}));
+                        break;
+                    }
+                    Err(e) => rep.inconclusive(format!("resolver error for {name}: {e}")),
+                }
+            }
+        } else {
+            let before = anytls_rs::verif::event_count();
+            let mut js = tokio::task::JoinSet::new();
+            for p in &ports {
+                let c = w.client.clone();
+                let n = name.clone();
+                let p = *p;
+                js.spawn(async move { tokio::time::timeout(Duration::from_secs(40), c.create_proxy_stream((n, p))).await.is_ok() });
+            }
+            while js.join_next().await.is_some() {}
+            tokio::time::sleep(Duration::from_millis(50)).await;
+            let dialled: Vec<SocketAddr> = anytls_rs::verif::events().into_iter().skip(before).filter_map(|e| if let Event::Dial { addr, .. } = e { Some(addr) } else { None }).collect();
+            for p in &ports {
+                let exp = SocketAddr::new(IpAddr::V4(netkit::name_to_v4(&name)), *p);
+                if !dialled.contains(&exp) {
+                    rep.violate("destination", "concurrent_cache_fill", "port_of_another_request", format!("{} concurrent requests for the uncached name {name} with ports {:?}: no dial to {exp}; observed dials {:?}", ports.len(), ports, dialled), json!({"kind": "c07-concurrent-fill", "name": name, "ports": ports}));
+                    break;
+                }
+            }
+        }
+    }
     if cross_ttl {
         // one history that crosses the resolver cache lifetime (60 s, real time)
         let name = "ttlcross.example.test".to_string();
@@ -487,9 +549,9 @@ pub fn run(ctx: Ctx) -> Report {
 pub fn meta() -> CheckMeta {
     CheckMeta {
         level: "exploration",
-        rule: "real Client -> real Server (TcpProxyHandler) over loopback TLS with a fake DNS server behind the real resolver (name -> 127.h(name)); requests through Client::create_proxy_stream, through the real SOCKS5 front-end, and with the destination header split over 1..n PSH frames and small read pieces into the real TcpProxyHandler on a MemPipe session: IPv4 literals (uniform, 127/8, 0.0.0.0, 255.255.255.255), IPv6 literals (uniform, ::, ::1, v4-mapped, link-local), domain names of every length class 1..255 (labels <= 63), ports {0,1,255,256,443,32767,32768,65535, the listening ports, uniform}. Oracle: the server-side hook events must contain the decoded destination and a Dial to exactly (address of the requested host, requested port); loopback-reachable ones are additionally confirmed by accept on wildcard listeners. UDP associations: UdpTarget event equals the requested socket address. Cache histories: sequences over 3 names + localhost x ports through resolve_host_with_cache directly and through full requests, each answer / dial compared with (address of THIS name, port of THIS request); thorough crosses the 60 s cache lifetime once. distinct_nontrivial = distinct (host, port, path).".into(),
+        rule: "real Client -> real Server (TcpProxyHandler) over loopback TLS with a fake DNS server behind the real resolver (name -> 127.h(name)); requests through Client::create_proxy_stream, through the real SOCKS5 front-end, and with the destination header split over 1..n PSH frames and small read pieces into the real TcpProxyHandler on a MemPipe session: IPv4 literals (uniform, 127/8, 0.0.0.0, 255.255.255.255), IPv6 literals (uniform, ::, ::1, v4-mapped, link-local), domain names of every length class 1..255 (labels <= 63), ports {0,1,255,256,443,32767,32768,65535, the listening ports, uniform}. Oracle: the server-side hook events must contain the decoded destination and a Dial to exactly (address of the requested host, requested port); loopback-reachable ones are additionally confirmed by accept on wildcard listeners. UDP associations: UdpTarget event equals the requested socket address. Cache histories: sequences over 3 names + localhost x ports through resolve_host_with_cache directly and through full requests, each answer / dial compared with (address of THIS name, port of THIS request); plus overlapping lookups / requests for the same uncached name with 2-4 different ports (each must get its own port); thorough crosses the 60 s cache lifetime once. distinct_nontrivial = distinct (host, port, path).".into(),
         assumptions: vec!["non-local connects are refused at once in this sandbox, so the real dial happens and fails fast; the Dial hook fires immediately before TcpStream::connect".into(), "fake DNS answers A records only (AAAA: empty), one address per name".into()],
-        floors: vec![("dials_to_requested_address", 500), ("requests_domain_name", 150), ("requests_ipv6_literal", 100), ("confirmed_by_loopback_accept", 30), ("cache_history_steps", 100), ("udp_targets_decoded_as_requested", 15), ("requests_via_fragmented_header", 100)],
+        floors: vec![("dials_to_requested_address", 500), ("requests_domain_name", 150), ("requests_ipv6_literal", 100), ("confirmed_by_loopback_accept", 30), ("cache_history_steps", 100), ("concurrent_cache_fills", 20), ("udp_targets_decoded_as_requested", 15), ("requests_via_fragmented_header", 100)],
         exhaustive: false,
     }
 }
